@@ -2,6 +2,8 @@
 //! every path witness of these scenarios is also fed to the real `cteepbd` binary, debug and release).
 
 use crate::common::*;
+#[allow(unused_imports)]
+use cteepbd::types::*;
 use cteepbd::*;
 
 const BASES: [&str; 7] = [
@@ -21,7 +23,7 @@ pub fn units(tier: &str, seed: u64) -> Vec<String> {
     let mut v = vec![];
     for (bi, b) in BASES.iter().enumerate() {
         let nl = b.split(';').count();
-        let mut cs: Vec<String> = vec!["none".into(), "longtext0".into(), "longtext1".into(), "dem2".into(), "salidafirst".into(), "auxfirst".into(), "demfirst".into(), "legacy".into()];
+        let mut cs: Vec<String> = vec!["none".into(), "longtext0".into(), "longtext1".into(), "meta1".into(), "dem2".into(), "salidafirst".into(), "auxfirst".into(), "demfirst".into(), "legacy".into()];
         for i in 0..nl {
             cs.push(format!("only:{}", i));
             cs.push(format!("trunc:{}", i));
@@ -61,6 +63,11 @@ pub fn corrupt(lines: Vec<String>, c: &str, val: &dyn Fn(&str) -> String) -> Vec
         if let Some((a, _)) = l[i].clone().rsplit_once(", ") {
             l[i] = format!("{}, abc # {}{}", a, pad, "áéíóúñ".repeat(60));
         }
+    } else if c == "meta1" {
+        // user factors in the metadata with the wrong number of values
+        l.insert(0, "#META CTE_RED1: 0.5".to_string());
+        l.insert(1, "#META CTE_RED2: (1.0)".to_string());
+        l.insert(2, "#META CTE_KEXP: 0.5".to_string());
     } else if c == "salidafirst" {
         l.insert(0, format!("1, SALIDA, CAL, {}, {}", val("sx0"), val("sx1")));
     } else if c == "auxfirst" {
@@ -128,6 +135,9 @@ pub fn scenario(u: &Unit) -> String {
         Ok(c) => c,
         Err(e) => return format!("{}@parse", err_kind(&e)),
     };
+    let _ = comps.get_meta_rennren("CTE_RED1");
+    let _ = comps.get_meta_rennren("CTE_RED2");
+    let _ = comps.get_meta_f32("CTE_KEXP");
     let _ = comps.to_string();
     let _ = comps.to_xml();
     let fp = match cte::wfactors_from_loc("PENINSULA", &cte::CTE_LOCWF_RITE2014, no_user(), cte::CTE_USERWF) {
